@@ -1,140 +1,132 @@
 // Contracts for matcher/src/exact.rs (C05 substring relation, C02 witness, C03 score, C04 one-char optimum).
-// Injected as `exact::verif_exact`.  All obligations here are bounded stand-ins over strings.
+// Injected as `exact::verif_exact`.  All obligations here are bounded stand-ins over strings:
+// shape parameters H (haystack length), N (needle length), K (base configuration) are const
+// generics instantiated from contracts/catalogue.py; all bytes, ignore_case, normalize symbolic.
 use super::*;
-use crate::chars::{Char, CharClass};
+use crate::chars::Char;
 use crate::verif_spec::*;
 use crate::Config;
 
-/// leftmost occurrence (start index) whose first character earns the highest bonus
-fn spec_best_occurrence<H: Char + PartialEq<N>, N: Char>(
-    hay: &[H],
-    needle: &[N],
-    cfg: &Config,
+struct In<const H: usize, const N: usize> {
+    hay: [u8; H],
+    needle: [u8; N],
+    cfg: Config,
     kind: Bonuses,
-) -> Option<usize> {
-    let mut best: Option<(usize, u16)> = None;
-    let mut at = 0;
-    while at + needle.len() <= hay.len() {
-        if spec_occurs_at(hay, needle, at, cfg) {
-            let b = spec_bonus_at(hay, at, cfg, kind);
-            match best {
-                Some((_, bb)) if bb >= b => {}
-                _ => best = Some((at, b)),
-            }
-        }
-        at += 1;
-    }
-    best.map(|x| x.0)
+}
+
+fn inputs<const H: usize, const N: usize, const K: u8>() -> In<H, N> {
+    let hay: [u8; H] = kani::any();
+    let needle: [u8; N] = kani::any();
+    kani::assume(all_ascii(&hay));
+    let (cfg, kind) = sym_config(K);
+    kani::assume(needle_normalized_ascii(&needle, &cfg));
+    In { hay, needle, cfg, kind }
 }
 
 // ----------------------------------------------------------------------------------------------
 // one-character needle, ASCII
 // ----------------------------------------------------------------------------------------------
-fn substring_1_ascii_contract<const H: usize>() {
-    let hay: [u8; H] = kani::any();
-    let c: u8 = kani::any();
-    kani::assume(all_ascii(&hay));
-    let (cfg, kind) = any_config_no_prefix();
-    kani::assume(needle_normalized_ascii(&[c], &cfg));
-    let mut m = small_matcher(cfg.clone(), 8);
-    let mut idx = prior_indices();
-    let old = idx.clone();
-    let r = m.substring_match_1_ascii::<true>(&hay, c, &mut idx);
-    let r2 = m.substring_match_1_ascii::<false>(&hay, c, &mut Vec::new());
-    assert!(r == r2, "score-only and indices variants agree");
-    let h = ascii(&hay);
-    let needle = [AsciiChar(c)];
-    let best = spec_best_occurrence(h, &needle, &cfg, kind);
+
+/// decision + position + score + witness of substring_match_1_ascii
+pub fn sub1_ascii<const H: usize, const K: u8>() {
+    let i = inputs::<H, 1, K>();
+    let mut m = small_matcher(i.cfg.clone(), 8);
+    let p0: u32 = kani::any();
+    let mut idx = Vec::with_capacity(4);
+    idx.push(p0);
+    let r = m.substring_match_1_ascii::<true>(&i.hay, i.needle[0], &mut idx);
+    let h = ascii(&i.hay);
+    let n = ascii(&i.needle);
+    let best = spec_best_occurrence(h, n, &i.cfg, i.kind);
     assert!(r.is_some() == best.is_some(), "matches exactly when the character occurs in the normalised haystack");
-    assert!(prior_untouched(&idx, &old));
+    assert!(idx[0] == p0, "earlier content of the indices vector is untouched");
     match r {
-        None => assert!(idx.len() == old.len(), "a failed match appends nothing"),
+        None => assert!(idx.len() == 1, "a failed match appends nothing"),
         Some(s) => {
-            assert!(idx.len() == old.len() + 1);
-            let p = idx[old.len()] as usize;
-            assert!(Some(p) == best, "reports the leftmost occurrence with the highest bonus (== the true optimum for a 1-char needle)");
-            assert!(s as u32 == spec_score(h, &cfg, kind, &idx[old.len()..]), "score == 16 + 2*bonus");
+            assert!(idx.len() == 2, "exactly one index is appended");
+            let got = [idx[1]];
+            assert!(Some(got[0] as usize) == best, "reports the leftmost occurrence with the highest bonus (the true optimum for a one-character needle)");
+            assert!(s as u32 == spec_score(h, &i.cfg, i.kind, &got), "score == 16 + 2*bonus");
         }
     }
     kani::cover!(r.is_some());
-    kani::cover!(r.is_none());
     std::mem::forget(m);
 }
 
-#[kani::proof]
-#[kani::unwind(8)]
-fn c05_substring_1_ascii_5() {
-    substring_1_ascii_contract::<5>();
-}
-
-#[kani::proof]
-#[kani::unwind(9)]
-fn c05_substring_1_ascii_7() {
-    substring_1_ascii_contract::<7>();
-}
-
-// ----------------------------------------------------------------------------------------------
-// multi-character needle, ASCII
-// ----------------------------------------------------------------------------------------------
-fn substring_ascii_contract<const H: usize, const N: usize>() {
-    let hay: [u8; H] = kani::any();
-    let needle: [u8; N] = kani::any();
-    kani::assume(all_ascii(&hay));
-    let (cfg, kind) = any_config_no_prefix();
-    kani::assume(needle_normalized_ascii(&needle, &cfg));
-    let mut m = small_matcher(cfg.clone(), 8);
-    let mut idx = prior_indices();
-    let old = idx.clone();
-    let r = m.substring_match_ascii::<true>(&hay, &needle, &mut idx);
-    let h = ascii(&hay);
-    let n = ascii(&needle);
-    let best = spec_best_occurrence(h, n, &cfg, kind);
-    assert!(r.is_some() == best.is_some(), "substring matching succeeds exactly when the needle occurs contiguously in the normalised haystack");
-    assert!(prior_untouched(&idx, &old));
-    match r {
-        None => assert!(idx.len() == old.len(), "a failed match appends nothing"),
-        Some(s) => {
-            let new = &idx[old.len()..];
-            assert!(spec_witness(h, n, &cfg, new), "indices are a valid witness");
-            assert!(contiguous(new), "substring indices are contiguous");
-            assert!(Some(new[0] as usize) == best, "reports the leftmost occurrence whose first character earns the highest bonus");
-            assert!(s as u32 == spec_score(h, &cfg, kind, new), "score == fzf scheme on the reported alignment");
-        }
-    }
-    let r2 = m.substring_match_ascii::<false>(&hay, &needle, &mut Vec::new());
+pub fn sub1_ascii_agree<const H: usize, const K: u8>() {
+    let i = inputs::<H, 1, K>();
+    let mut m = small_matcher(i.cfg.clone(), 8);
+    let mut idx = Vec::with_capacity(4);
+    let r = m.substring_match_1_ascii::<true>(&i.hay, i.needle[0], &mut idx);
+    let r2 = m.substring_match_1_ascii::<false>(&i.hay, i.needle[0], &mut Vec::new());
     assert!(r == r2, "score-only and indices variants agree");
     kani::cover!(r.is_some());
-    kani::cover!(r.is_none());
     std::mem::forget(m);
 }
 
-#[kani::proof]
-#[kani::unwind(8)]
-fn c05_substring_ascii_5_2() {
-    substring_ascii_contract::<5, 2>();
+// ----------------------------------------------------------------------------------------------
+// multi-character needle, ASCII      (call-site precondition: 2 <= N < H)
+// ----------------------------------------------------------------------------------------------
+
+/// decision: Some <=> the needle occurs contiguously in the normalised haystack
+pub fn sub_ascii_decision<const H: usize, const N: usize, const K: u8>() {
+    let i = inputs::<H, N, K>();
+    let mut m = small_matcher(i.cfg.clone(), 8);
+    let r = m.substring_match_ascii::<false>(&i.hay, &i.needle, &mut Vec::new());
+    let best = spec_best_occurrence(ascii(&i.hay), ascii(&i.needle), &i.cfg, i.kind);
+    assert!(r.is_some() == best.is_some(), "substring matching succeeds exactly when the needle occurs contiguously in the normalised haystack");
+    kani::cover!(r.is_some());
+    std::mem::forget(m);
 }
 
-#[kani::proof]
-#[kani::unwind(8)]
-fn c05_substring_ascii_5_3() {
-    substring_ascii_contract::<5, 3>();
+/// position, witness, score
+pub fn sub_ascii_witness<const H: usize, const N: usize, const K: u8>() {
+    let i = inputs::<H, N, K>();
+    let mut m = small_matcher(i.cfg.clone(), 8);
+    let p0: u32 = kani::any();
+    let mut idx = Vec::with_capacity(N + 2);
+    idx.push(p0);
+    let r = m.substring_match_ascii::<true>(&i.hay, &i.needle, &mut idx);
+    let h = ascii(&i.hay);
+    let n = ascii(&i.needle);
+    assert!(idx[0] == p0, "earlier content of the indices vector is untouched");
+    match r {
+        None => assert!(idx.len() == 1, "a failed match appends nothing"),
+        Some(s) => {
+            assert!(idx.len() == 1 + N, "exactly one index per needle character is appended");
+            let mut got = [0u32; N];
+            let mut k = 0;
+            while k < N {
+                got[k] = idx[1 + k];
+                k += 1;
+            }
+            assert!(spec_witness(h, n, &i.cfg, &got), "indices are a valid witness");
+            assert!(contiguous(&got), "substring indices are contiguous");
+            let best = spec_best_occurrence(h, n, &i.cfg, i.kind);
+            assert!(Some(got[0] as usize) == best, "reports the leftmost occurrence whose first character earns the highest bonus");
+            assert!(s as u32 == spec_score(h, &i.cfg, i.kind, &got), "score == fzf scheme on the reported alignment");
+        }
+    }
+    kani::cover!(r.is_some());
+    std::mem::forget(m);
 }
 
-#[kani::proof]
-#[kani::unwind(9)]
-fn c05_substring_ascii_6_3() {
-    substring_ascii_contract::<6, 3>();
+pub fn sub_ascii_agree<const H: usize, const N: usize, const K: u8>() {
+    let i = inputs::<H, N, K>();
+    let mut m = small_matcher(i.cfg.clone(), 8);
+    let mut idx = Vec::with_capacity(N + 2);
+    let r = m.substring_match_ascii::<true>(&i.hay, &i.needle, &mut idx);
+    let r2 = m.substring_match_ascii::<false>(&i.hay, &i.needle, &mut Vec::new());
+    assert!(r == r2, "score-only and indices variants agree");
+    kani::cover!(r.is_some());
+    std::mem::forget(m);
 }
 
 /// canary: must FAIL
-#[kani::proof]
-#[kani::unwind(8)]
-fn c05_exact_canary() {
-    let hay: [u8; 4] = kani::any();
-    let needle: [u8; 2] = kani::any();
-    kani::assume(all_ascii(&hay) && all_ascii(&needle));
-    let mut m = small_matcher(Config::DEFAULT, 8);
-    let r = m.substring_match_ascii::<false>(&hay, &needle, &mut Vec::new());
+pub fn exact_canary() {
+    let i = inputs::<4, 2, 0>();
+    let mut m = small_matcher(i.cfg.clone(), 8);
+    let r = m.substring_match_ascii::<false>(&i.hay, &i.needle, &mut Vec::new());
     std::mem::forget(m);
     assert!(r.is_none());
 }
